@@ -6,18 +6,26 @@ open Lean Driver GinjaxVerif
 
 namespace Driver.C01
 
-/-- materialise a bank on its box so that nested evaluation stays cheap -/
-def tabBank {d : Nat} (B C : Nat) (dims : List Nat) (k : Nat) (bank : Bank Int d) : Bank Int d :=
+/-- values of a bank on its box, row-major (computed once by the caller) -/
+def bankArr {d : Nat} (B C : Nat) (dims : List Nat) (k : Nat) (bank : Bank Int d) : Array Int :=
   let tens := List.replicate k d
-  let shape := [B, C] ++ dims ++ tens
-  let arr := ((List.range B).flatMap (fun b => (List.range C).flatMap (fun c =>
+  ((List.range B).flatMap (fun b => (List.range C).flatMap (fun c =>
     (boxIdx dims).flatMap (fun y => (boxIdx tens).map (fun n =>
       bank b c (listToFn d 0 (y.map Int.ofNat))
         (n.filterMap (fun a => if h : a < d then some (⟨a, h⟩ : Fin d) else none))))))).toArray
-  fun b c y n =>
-    if (fnToList y).zip dims |>.all (fun (v, s) => decide (0 ≤ v ∧ v < (s : Int))) then
-      arr.getD (ravelIdx shape ([b, c] ++ (fnToList y).map Int.toNat ++ n.map (·.val))) 0
-    else 0
+
+structure TabBank (d : Nat) where
+  bank : Bank Int d
+
+/-- materialise a bank on its box so that nested evaluation stays cheap; the array is stored in a
+structure field so that it is computed once, not on every access -/
+def tabBank {d : Nat} (B C : Nat) (dims : List Nat) (k : Nat) (bank : Bank Int d) : TabBank d :=
+  let arr := bankArr B C dims k bank
+  let shape := [B, C] ++ dims ++ List.replicate k d
+  { bank := fun b c y n =>
+      if (fnToList y).zip dims |>.all (fun (v, s) => decide (0 ≤ v ∧ v < (s : Int))) then
+        arr.getD (ravelIdx shape ([b, c] ++ (fnToList y).map Int.toNat ++ n.map (·.val))) 0
+      else 0 }
 
 def tgeBankD {d : Nat} (M : Mat d) (p : Nat) (dims : Fin d → Nat) (k : Nat) (B : Bank Int d) : Bank Int d :=
   fun b ch y t => (tge M p ⟨dims, k, B b ch⟩).val y t
@@ -40,13 +48,13 @@ def handle (op : String) (j : Json) : R Json := do
     let gi := tabBank img.lead0 img.lead1 (fnToList (rotDims M N)) img.k (tgeBankD M pI N img.k img.bank)
     let gf := tabBank flt.lead0 flt.lead1 (fnToList (rotDims M Mf)) flt.k (tgeBankD M pF Mf flt.k flt.bank)
     pure (Driver.C04.bankToJson img.lead0 flt.lead0 (fnToList cfg'.outDims) (cfg.kI + cfg.kF)
-      (convSpec cfg' gi gf))
+      (convSpec cfg' gi.bank gf.bank))
   | "c01.rhs" =>
     -- g.(convolve(A, C, opts))
     let dims := fnToList cfg.outDims
     let out := tabBank img.lead0 flt.lead0 dims (cfg.kI + cfg.kF) (convSpec cfg img.bank flt.bank)
     pure (Driver.C04.bankToJson img.lead0 flt.lead0 (fnToList (rotDims M cfg.outDims)) (cfg.kI + cfg.kF)
-      (tgeBankD M (pI + pF) cfg.outDims (cfg.kI + cfg.kF) out))
+      (tgeBankD M (pI + pF) cfg.outDims (cfg.kI + cfg.kF) out.bank))
   | _ => throw s!"unknown op {op}"
 
 end Driver.C01
